@@ -141,6 +141,8 @@ def run(case: dict, *, count_only: bool = False) -> Obs:
             env.dns[host] = ("ok", list(script[1]), int(script[2]) * D if len(script) > 2 else D)
         elif script[0] == "hang":
             env.dns[host] = ("hang",)
+        elif script[0] == "unicode_error":
+            env.dns[host] = ("unicode_error",)
         else:
             env.dns[host] = (script[0], int(script[1]) * D if len(script) > 1 else D)
     n_addr = 0
